@@ -45,6 +45,16 @@ def startsLike (dtls : Bool) (d : Bytes) : Bool :=
     (startsTab dtls).any (fun t => t.1 == a.toNat && t.2.1 == b.toNat && t.2.2.contains c.toNat)
   | _ => false
 
+def startsPred (dtls : Bool) : Nat × Nat × Nat × Nat × Nat :=
+  if dtls then Gen.C13.dtlsPred else Gen.C13.tlsPred
+
+/-- the source expression of `starts_like_tls_record` / `starts_like_dtls_record`, transcribed:
+    `len(d) > N and d[0] == A and d[1] == B and LO <= d[2] <= HI` (constants from the AST, `Gen.C13`) -/
+def startsP (dtls : Bool) (d : Bytes) : Bool :=
+  let p := startsPred dtls
+  decide (p.1 < d.length) && (d.getD 0 0).toNat == p.2.1 && (d.getD 1 0).toNat == p.2.2.1 &&
+    decide (p.2.2.2.1 ≤ (d.getD 2 0).toNat) && decide ((d.getD 2 0).toNat ≤ p.2.2.2.2)
+
 /-- one iteration of `handshake_record_contents`: `ok (record_body, remaining data)`,
     `incomplete` = the generator returns, `invalid` = it raises ValueError -/
 def nextRecord (dtls : Bool) (d : Bytes) : Res (Bytes × Bytes) :=
@@ -260,6 +270,57 @@ def parse (dtls : Bool) (d : Bytes) : Res Hello :=
     | some h => .ok h
     | none => .invalid
 
+/-! ## `mitmproxy.net.check.is_valid_host` on bytes -/
+
+/-- what stays library: consulted only on the two paths named -/
+structure HostLib where
+  /-- `host.decode("idna")` succeeds — asked only when `b"xn--"` occurs in the name (slow path: punycode, nameprep) -/
+  ace : Bytes → Bool
+  /-- `ipaddress.ip_address(host.decode("idna"))` succeeds — asked only when some label fails the DNS-label regex -/
+  ip : Bytes → Bool
+
+def isInfix (p : Bytes) : Bytes → Bool
+  | [] => p.isEmpty
+  | b :: r => p.isPrefixOf (b :: r) || isInfix p r
+
+def acePrefix : Bytes := [0x78, 0x6e, 0x2d, 0x2d]   -- b"xn--"
+
+/-- `bytes.decode("idna")` of CPython 3.12: empty → ok; no `xn--` anywhere → fast path `decode("ascii")`, and the
+    slow path fails on the same non-ASCII label; otherwise the library decides -/
+def idnaOk (lib : HostLib) (nm : Bytes) : Bool :=
+  if isInfix acePrefix nm then lib.ace nm else nm.all (fun b => b.toNat < 128)
+
+/-- character class of `_label_valid = re.compile(rb"[A-Z\d\-_]{1,63}$", re.IGNORECASE)` -/
+def labelChar (b : UInt8) : Bool :=
+  (65 ≤ b.toNat && b.toNat ≤ 90) || (97 ≤ b.toNat && b.toNat ≤ 122) || (48 ≤ b.toNat && b.toNat ≤ 57) ||
+    b == 0x2d || b == 0x5f
+
+/-- `_label_valid.match(label)`: 1..63 class characters, then the end — or one `\n` and the end (`$`) -/
+def labelValid (l : Bytes) : Bool :=
+  let n := (l.takeWhile labelChar).length
+  decide (1 ≤ n) && decide (n ≤ 63) && (l.drop n == [] || l.drop n == [0x0a])
+
+/-- `bytes.split(b".")` -/
+def splitDot : Bytes → List Bytes
+  | [] => [[]]
+  | b :: r =>
+    if b = 0x2e then [] :: splitDot r
+    else
+      match splitDot r with
+      | l :: ls => (b :: l) :: ls
+      | [] => [[b]]
+
+/-- `if host_bytes and host_bytes.endswith(b"."): host_bytes = host_bytes[:-1]` -/
+def stripDot (d : Bytes) : Bytes := if d.getLast? = some 0x2e then d.dropLast else d
+
+/-- `is_valid_host(host: bytes)` -/
+def validHost (lib : HostLib) (nm : Bytes) : Bool :=
+  if idnaOk lib nm = false then false
+  else if 255 < nm.length then false
+  else
+    let hb := stripDot nm
+    if (splitDot hb).all labelValid then true else lib.ip hb
+
 /-! ## accessors of `mitmproxy.tls.ClientHello` -/
 
 /-- host names of the extensions that pass the structural part of `is_valid_sni_extension` -/
@@ -282,6 +343,21 @@ def Hello.alpn (h : Hello) : List Bytes :=
 
 /-- `ClientHello.extensions` -/
 def Hello.extView (h : Hello) : List (Nat × Bytes) := h.exts.map (fun e => (e.typ, e.raw))
+
+/-- SPECIFICATION: the result as a function of the concatenated handshake payload alone -/
+def helloOf (dtls : Bool) (payload : Bytes) : Res Hello :=
+  match complete? dtls payload with
+  | none => .incomplete
+  | some m =>
+    match parseBody dtls (m.drop (msgHdrLen dtls)) with
+    | some h => .ok h
+    | none => .invalid
+
+/-- SPECIFICATION: the result as a function of the ClientHello handshake message alone -/
+def helloOfMsg (dtls : Bool) (m : Bytes) : Res Hello :=
+  match parseBody dtls (m.drop (msgHdrLen dtls)) with
+  | some h => .ok h
+  | none => .invalid
 
 /-! ## `ClientTLSLayer.receive_handshake_data` before the hello is parsed -/
 
@@ -393,6 +469,12 @@ def builtSni (valid : Bytes → Bool) : List BExt → Option Bytes
   | [] => none
   | .sni [(t, nm)] :: es => if t = 0 ∧ valid nm = true then some nm else builtSni valid es
   | _ :: es => builtSni valid es
+
+/-- `b".".join(labels)` -/
+def joinDot : List Bytes → Bytes
+  | [] => []
+  | [l] => l
+  | l :: ls => l ++ 0x2e :: joinDot ls
 
 /-- handshake header of an unfragmented message: type 1, length (and seq, offset 0, fragment length for DTLS) -/
 def msgHdr (dtls : Bool) (seq : Bytes) (n : Nat) : Bytes :=
